@@ -55,6 +55,9 @@ def correspondence(ctx):
 def search(ctx, broken, corr_broken):
     global LAST_SEARCH_CANDIDATES
     hit, n = deccorr.monitor_isolation(ctx, 40, 50)
+    if not hit:
+        hit, n2 = deccorr.monitor_rejected(ctx, 40, 60)
+        n += n2
     LAST_SEARCH_CANDIDATES = n
     if hit:
         return [{"key": f"C16/{hit['kind']}/{common.short_hash(hit)}", "what": hit["what"], "replay": hit}]
